@@ -534,3 +534,90 @@ impl Modeled for TransSkip {
 /// Finding F5: a type cycle that consumes no input per level (no values; decoding never returns).
 #[derive(Encode, Decode)]
 pub struct Inf(pub Box<Inf>);
+
+/// Not a codec type at all: only usable in skipped positions.
+#[derive(Default, Clone, PartialEq, Debug)]
+pub struct NotCodec(pub u8);
+
+/// Generic enum: the bounds the derive generates must cover the encoded positions only (a skipped
+/// field / variant of a type that is no codec type must compile), compact and encoded_as fields of
+/// a type parameter, PhantomData of a non-codec parameter.
+#[derive(Encode, Decode, DecodeWithMemTracking, PartialEq, Debug, Clone)]
+pub enum GenEnum<T, S: Default, C: parity_scale_codec::HasCompact> {
+	A(T),
+	B {
+		#[codec(skip)]
+		s: S,
+		#[codec(compact)]
+		c: C,
+		t: Option<T>,
+	},
+	#[codec(skip)]
+	Hidden(S),
+	#[codec(index = 9)]
+	D(core::marker::PhantomData<S>, #[codec(encoded_as = "<C as parity_scale_codec::HasCompact>::Type")] C),
+}
+impl<T: Modeled, S: Default + 'static, C: Modeled + parity_scale_codec::HasCompact + CompactWidth> Modeled for GenEnum<T, S, C> {
+	fn ty(d: usize) -> String {
+		format!(
+			"adt enum 4 0 - - 1 p {} 0 - - 3 s unit c {} p {} 1 - - 1 p unit 0 9 - 2 p unit a c {} {}",
+			T::ty(d),
+			C::ty(d),
+			Option::<T>::ty(d),
+			C::W,
+			C::ty(d)
+		)
+	}
+	fn val(&self, out: &mut String, c: bool) {
+		match self {
+			GenEnum::A(t) => {
+				out.push_str("V 0 L 1 ");
+				t.val(out, c)
+			},
+			GenEnum::B { c: cc, t, .. } => {
+				out.push_str("V 1 L 2 ");
+				cc.val(out, c);
+				out.push(' ');
+				t.val(out, c)
+			},
+			GenEnum::Hidden(_) => out.push('K'),
+			GenEnum::D(_, cc) => {
+				out.push_str("V 9 L 2 U ");
+				cc.val(out, c)
+			},
+		}
+	}
+	fn gen(g: &mut G) -> Self {
+		match g.rng.below(3) {
+			0 => GenEnum::A(T::gen(g)),
+			1 => GenEnum::B { s: S::default(), c: C::gen(g), t: Option::<T>::gen(g) },
+			_ => GenEnum::D(core::marker::PhantomData, C::gen(g)),
+		}
+	}
+	fn min_len() -> usize {
+		1
+	}
+}
+
+/// Generic struct over a sequence parameter with a skipped generic field and nested generics.
+#[derive(Encode, Decode, DecodeWithMemTracking, PartialEq, Debug, Clone)]
+pub struct GenStruct<T, S: Default>(pub Vec<T>, #[codec(skip)] pub S, pub Twin<Option<T>>, pub [T; 2]);
+impl<T: Modeled, S: Default + 'static> Modeled for GenStruct<T, S> {
+	fn ty(d: usize) -> String {
+		format!("adt struct 4 p {} s unit p {} p {}", Vec::<T>::ty(d), Twin::<Option<T>>::ty(d), <[T; 2]>::ty(d))
+	}
+	fn val(&self, out: &mut String, c: bool) {
+		out.push_str("L 3 ");
+		self.0.val(out, c);
+		out.push(' ');
+		self.2.val(out, c);
+		out.push(' ');
+		self.3.val(out, c)
+	}
+	fn gen(g: &mut G) -> Self {
+		GenStruct(Vec::<T>::gen(g), S::default(), Twin(Option::<T>::gen(g)), [T::gen(g), T::gen(g)])
+	}
+	fn min_len() -> usize {
+		2
+	}
+}
